@@ -151,6 +151,9 @@ func runFree(sc *Scenario, iters, copies int) FreeResult {
 	var pmu sync.Mutex
 	for it := 0; it < iters; it++ {
 		env := sc.Setup()
+		if sc.Prefix != nil {
+			sc.Prefix(env)
+		}
 		var wg sync.WaitGroup
 		gate := make(chan struct{})
 		for k := 0; k < len(sc.Threads)*copies; k++ {
